@@ -144,7 +144,7 @@ def run_case(case, ctx):
                 out = h.cmd("start")
                 backwards = False
                 seg = ref.run() if startable else []
-            if not h.wait_quiescent(60):
+            if not h.wait_quiescent(20):
                 ctx.viol("hang:segment-did-not-reach-quiescence", {**w, "snapshot": h.snapshot()})
                 return
             snap = h.snapshot()
